@@ -157,3 +157,17 @@ def fixed(value, name):
 def by(name, values, base):
     """base parameter dicts x one job per value of `name`"""
     return [dict(b, **{name: v}) for b in base for v in values]
+
+
+def concretise_cp(c, alphabet):
+    """force the solver to pick the character (one path per member of a finite alphabet); used where the
+    code under test calls C-level string functions (casefold, json) that CrossHair cannot model"""
+    for a in alphabet:
+        if c == ord(a):
+            return ord(a)
+    return c
+
+
+def SC(k, alphabet, *cps):
+    """like S(), with every code point concretised over the finite alphabet"""
+    return ''.join([chr(concretise_cp(c, alphabet)) for c in cps[:k]])
